@@ -270,6 +270,10 @@ def jcompare(j, d, m, types, st, path, out, sigs):
     Appends differing paths to out."""
     if m == "" and isinstance(d, str) and len(d) >= 20 and parse_rfc3339(d) is not None and j != d and not isinstance(j, (dict, list, bool)) and j is not None:
         m = "Time"      # keyless array element logged with Array.Time: the binary build always renders times as RFC 3339
+    if m in ("Time", "Timestamp") and (j is None or d is None):
+        if j is not d:                              # a nil *time.Time is null in both builds
+            out.append(path)
+        return
     if m in ("Time", "Timestamp"):
         fmt = st.get("timeFormat", "2006-01-02T15:04:05Z07:00")
         if fmt not in ("", "UNIXMS", "UNIXMICRO", "UNIXNANO", "2006-01-02T15:04:05Z07:00", "2006-01-02T15:04:05.999999999Z07:00"):
